@@ -51,6 +51,7 @@ type c14Case struct {
 	Backend  string   `json:"backend"`
 	BasePath string   `json:"basepath"`
 	Name     int      `json:"name"`
+	Slash    bool     `json:"client_base_url_with_trailing_slash,omitempty"`
 	Seq      []int    `json:"seq"`
 	Ops      []string `json:"ops,omitempty"`
 }
@@ -81,7 +82,11 @@ func c14Exec(c *fw.Ctx, cas c14Case, from int) (key string, extend, nontrivial b
 		c.Violate(key, fmt.Sprintf("%s\nbackend=%s basepath=%q name=%q (mailbox %q)\n  %s", detail, cas.Backend, cas.BasePath, nm.URLName, nm.Mailbox, strings.Join(log, "\n  ")), cas)
 		extend = false
 	}
-	cl, err := client.New("http://verif.test"+cas.BasePath, client.WithTransport(rtFunc(s.RoundTrip)))
+	base := "http://verif.test" + cas.BasePath
+	if cas.Slash {
+		base += "/" // a base URL written with a trailing slash is the same server
+	}
+	cl, err := client.New(base, client.WithTransport(rtFunc(s.RoundTrip)))
 	if err != nil {
 		panic("VERIF-INFRA client.New: " + err.Error())
 	}
@@ -563,27 +568,38 @@ func c14Run(c *fw.Ctx) {
 				if !c.Thorough() && bp == "/pre" && ni > 1 && ni != 6 {
 					continue // quick: base path × special names only for plain, address form and slash
 				}
-				be, bp, ni := be, bp, ni
-				maxD := fw.Pick(c, 4, 6)
-				e := &fw.SeqExplorer{
-					C: c, NOps: len(c14Ops),
-					FullDepth: fw.Pick(c, 2, 3),
-					MaxDepth:  maxD,
-					Run: func(seq []int) (string, bool, bool) {
-						cas := c14Desc(be, bp, ni, seq)
-						var key string
-						var ext, nt bool
-						if c.Guard("harness", cas, func() { key, ext, nt = c14Exec(c, cas, len(seq)-1) }) {
-							return "", false, false
-						}
-						return key, ext, nt
-					},
-					Desc: func(seq []int) any { return c14Desc(be, bp, ni, seq) },
-				}
-				e.Explore()
+				c14Explore(c, be, bp, ni, false, fw.Pick(c, 2, 3), fw.Pick(c, 4, 6))
 			}
 		}
 	}
+	// the Go client configured with a base URL that ends in a slash (with and without base path)
+	for _, bp := range []string{"", "/pre"} {
+		c14Explore(c, "mem", bp, 1, true, 2, fw.Pick(c, 3, 4))
+	}
+}
+
+func c14Explore(c *fw.Ctx, be, bp string, ni int, slash bool, fullD, maxD int) {
+	desc := func(seq []int) c14Case {
+		cas := c14Desc(be, bp, ni, seq)
+		cas.Slash = slash
+		return cas
+	}
+	e := &fw.SeqExplorer{
+		C: c, NOps: len(c14Ops),
+		FullDepth: fullD,
+		MaxDepth:  maxD,
+		Run: func(seq []int) (string, bool, bool) {
+			cas := desc(seq)
+			var key string
+			var ext, nt bool
+			if c.Guard("harness", cas, func() { key, ext, nt = c14Exec(c, cas, len(seq)-1) }) {
+				return "", false, false
+			}
+			return key, ext, nt
+		},
+		Desc: func(seq []int) any { return desc(seq) },
+	}
+	e.Explore()
 }
 
 func c14Replay(c *fw.Ctx, raw json.RawMessage) {
